@@ -283,6 +283,38 @@ func runCase0(c Case) *violation {
 				}
 			}
 		}
+		// iteration is a read as well: it walks the committed keys and must yield exactly those of them that
+		// still exist, with their current values (keys that only live in the caches are documented as not iterable)
+		for pass := 0; pass < 2; pass++ {
+			seen := map[string][]byte{}
+			fn := func(k, v []byte) bool {
+				seen[string(k)] = append([]byte{}, v...)
+				return false
+			}
+			name := "Iterate"
+			if pass == 0 {
+				s.st.Iterate(fn)
+			} else {
+				name = "IterateRange"
+				s.st.IterateRange([]byte("a"), []byte("d"), true, fn)
+			}
+			for k, v := range seen {
+				want, ok := m.get(k)
+				if !ok {
+					return &violation{"iterate-model", fmt.Sprintf("step %d after %s: %s yields key %s (value %q) although it is deleted", step, o, name, k, v)}
+				}
+				if !bytes.Equal(v, []byte(want)) {
+					return &violation{"iterate-model", fmt.Sprintf("step %d after %s: %s yields %s=%q want %q", step, o, name, k, v, want)}
+				}
+			}
+			for k := range m.cur() {
+				if _, ok := m.get(k); ok {
+					if _, in := seen[k]; !in {
+						return &violation{"iterate-model", fmt.Sprintf("step %d after %s: %s misses the committed, still existing key %s", step, o, name, k)}
+					}
+				}
+			}
+		}
 		return nil
 	}
 	checkVersions := func(step int, o Op) *violation {
